@@ -189,6 +189,26 @@ func verifDbExecContext(db *sql.DB, ctx context.Context, query string, args ...a
 	return verifDbExec(db, query, args...)
 }
 
+// last read query seen (engine: through the override below; natively: through the fake driver)
+var verifLastQuery string
+var verifLastArgs []any
+
+//verif:override (*github.com/jmoiron/sqlx.DB).QueryxContext
+func verifDbQueryxContext(db *sqlx.DB, ctx context.Context, query string, args ...any) (*sqlx.Rows, error) {
+	if err := verifRec.stmt(false); err != nil {
+		return nil, err
+	}
+	verifLastQuery = query
+	verifLastArgs = nil
+	for _, a := range args {
+		if v, ok := a.(int); ok {
+			a = int64(v)
+		}
+		verifLastArgs = append(verifLastArgs, a)
+	}
+	return &sqlx.Rows{}, nil
+}
+
 //verif:override (*github.com/jmoiron/sqlx.DB).GetContext
 func verifDbGetContext(db *sqlx.DB, ctx context.Context, dest any, query string, args ...any) error {
 	if err := verifRec.stmt(false); err != nil {
@@ -249,9 +269,25 @@ func (c *verifConn) QueryContext(ctx context.Context, q string, args []driver.Na
 	if err := verifRec.stmt(c.inTx); err != nil {
 		return nil, err
 	}
+	verifLastQuery = q
+	verifLastArgs = nil
+	for _, a := range args {
+		verifLastArgs = append(verifLastArgs, a.Value)
+	}
 	return verifRows{}, nil
 }
-func (c *verifConn) CheckNamedValue(nv *driver.NamedValue) error { nv.Value = int64(0); return nil }
+
+// Integers and strings are passed through (the query harness inspects them); everything else becomes 0.
+func (c *verifConn) CheckNamedValue(nv *driver.NamedValue) error {
+	switch v := nv.Value.(type) {
+	case int:
+		nv.Value = int64(v)
+	case int64, string:
+	default:
+		nv.Value = int64(0)
+	}
+	return nil
+}
 
 type verifTx struct{ c *verifConn }
 
@@ -293,6 +329,10 @@ func verifAdapter(nStmts int) *adapter {
 	verifRec.dupAt = d
 	verifRec.commitFails = verifNondetBool("commitFails")
 	verifRec.affected = int64(verifChoose("rowsAffected", 2))
+	return verifNewAdapter()
+}
+
+func verifNewAdapter() *adapter {
 	a := &adapter{}
 	if verifIsSymbolicEngine() {
 		a.db = &sqlx.DB{}
